@@ -100,6 +100,13 @@ TTick == /\ IsEvent("Tick") /\ UNCHANGED tid
          /\ ChkStep
          /\ Chk("resend exactly the due pending sends", TxSet(Rec.tx) = out'.tx /\ Len(Rec.tx) = Cardinality(out'.tx))
          /\ ChkFut(Rec.fut)
+\* {"ev":"LoopTick","d":ms,..}: clock += d, then one iteration of HippoClient._attempt_resends
+TLoopTick == /\ IsEvent("LoopTick") /\ UNCHANGED tid
+             /\ Env("positive step", Rec.d > 0)
+             /\ LoopTick(Rec.d)
+             /\ ChkStep
+             /\ Chk("resend exactly the due pending sends", TxSet(Rec.tx) = out'.tx /\ Len(Rec.tx) = Cardinality(out'.tx))
+             /\ ChkFut(Rec.fut)
 TSub == /\ IsEvent("Sub") /\ UNCHANGED tid
         /\ Env("level and kind", Rec.level \in Levels /\ Rec.kind \in Kinds)
         /\ Subscribe(Rec.level, Rec.kind)
@@ -121,7 +128,7 @@ TPing == /\ IsEvent("Ping") /\ UNCHANGED tid
          /\ Chk("ping answered with one CompletePingCheck", TxSet(Rec.tx) = out'.tx /\ Len(Rec.tx) = 1 /\ Rec.pong_ok)
          /\ ChkDeliver2(Rec.dl, 0, 1)
          /\ ChkFut(Rec.fut)
-TNext == TPing \/ TAlive \/ TDisconnect \/ TReset \/ TRecv \/ TStray \/ TSendRel \/ TSendUnrel \/ TTick \/ TSub
+TNext == TLoopTick \/ TPing \/ TAlive \/ TDisconnect \/ TReset \/ TRecv \/ TStray \/ TSendRel \/ TSendUnrel \/ TTick \/ TSub
 TraceSpec == TInit /\ [][TNext]_tvars
 TraceAccepted == PrintT("TRACE_REACHED " \o ToString(TLCGet("stats").diameter - 1) \o " OF " \o ToString(Len(TraceLog)))
 ====
